@@ -1,5 +1,5 @@
 (* Theorems about the mirror of docopt's last stage. *)
-From Coq Require Import List String Ascii Bool NArith Lia Permutation.
+From Coq Require Import List String Ascii Bool NArith Arith Lia Permutation.
 From RashV Require Import Order OrderProofs Tail.
 Import ListNotations.
 Open Scope string_scope. Open Scope list_scope.
@@ -142,4 +142,68 @@ Proof.
     - intros [->|Hin]; [now apply IHm|now apply IHin]. }
   intro Hin. apply (G t (JObj [])); [|assumption].
   exists []. split; [reflexivity|now left].
+Qed.
+
+(* ---------------------------------------------------------------- C08 / C09 at the last stage *)
+(* a usage fits argv: as many words, and every word binds *)
+Definition fits (t : list odesc) (argv ds : list string) (l : list jv) : Prop :=
+  List.length argv = List.length ds /\ bind_list t argv ds ds = Some (Some l).
+Definition misfits (t : list odesc) (argv ds : list string) : Prop :=
+  List.length argv = List.length ds -> bind_list t argv ds ds = Some None.
+
+(* exactly the first fitting usage, in the order given, is chosen; the stage reports "no match" only
+   when no usage fits *)
+Theorem first_match_spec t argv : forall us,
+  match first_match t argv us with
+  | Some (Some l) => exists pre ds post, us = pre ++ ds :: post /\ fits t argv ds l /\ Forall (misfits t argv) pre
+  | Some None => Forall (misfits t argv) us
+  | None => exists ds, In ds us /\ List.length argv = List.length ds /\ bind_list t argv ds ds = None
+  end.
+Proof.
+  induction us as [|ds r IH]; cbn [first_match]; [constructor|].
+  destruct (Nat.eqb_spec (List.length argv) (List.length ds)) as [L|L].
+  - destruct (bind_list t argv ds ds) as [[l|]|] eqn:E.
+    + exists [], ds, r. repeat split; auto.
+    + destruct (first_match t argv r) as [[l|]|].
+      * destruct IH as (pre & d & post & -> & F & M). exists (ds :: pre), d, post.
+        repeat split; try apply F. constructor; [intros _; exact E|exact M].
+      * constructor; [intros _; exact E|exact IH].
+      * destruct IH as (d & Hin & H). exists d. split; [now right|exact H].
+    + exists ds. split; [now left|auto].
+  - destruct (first_match t argv r) as [[l|]|].
+    + destruct IH as (pre & d & post & -> & F & M). exists (ds :: pre), d, post.
+      repeat split; try apply F. constructor; [intro; contradiction|exact M].
+    + constructor; [intro; contradiction|exact IH].
+    + destruct IH as (d & Hin & H). exists d. split; [now right|exact H].
+Qed.
+
+Definition tail_defs (usages : list string) : list (list string) :=
+  let defs0 := map words_of_usage usages in map (expand_repeatable defs0) defs0.
+
+(* C08, last stage: "no match" is reported only when NO expanded usage fits the arguments *)
+Theorem tail_rejects_only_when_no_usage_fits t argv usages :
+  tail t argv usages = TNoMatch -> forall ds l, In ds (tail_defs usages) -> ~ fits t argv ds l.
+Proof.
+  unfold tail, tail_defs. destruct (kinds_valid (map words_of_usage usages)); cbn [negb]; [|discriminate].
+  pose proof (first_match_spec t argv (map (expand_repeatable (map words_of_usage usages)) (map words_of_usage usages))) as S.
+  destruct (first_match t argv _) as [[l|]|]; try discriminate.
+  - unfold help_or_vars. repeat match goal with |- context [match ?x with _ => _ end] => destruct x end; discriminate.
+  - intros _ ds l Hin [L B]. rewrite Forall_forall in S. specialize (S ds Hin L). congruence.
+Qed.
+
+(* ... and conversely: when some expanded usage fits (and the usages are well formed and nothing
+   panics) the arguments are accepted - help or variables, never a usage error *)
+Theorem tail_accepts_when_some_usage_fits t argv usages ds l :
+  kinds_valid (map words_of_usage usages) = true ->
+  In ds (tail_defs usages) -> fits t argv ds l ->
+  (forall d, In d (tail_defs usages) -> List.length argv = List.length d -> bind_list t argv d d <> None) ->
+  tail t argv usages = THelp \/ exists v, tail t argv usages = TVars v.
+Proof.
+  intros K Hin [L B] NP. unfold tail. fold (tail_defs usages). rewrite K. cbn [negb].
+  pose proof (first_match_spec t argv (tail_defs usages)) as S.
+  destruct (first_match t argv (tail_defs usages)) as [[l'|]|].
+  - unfold help_or_vars.
+    repeat match goal with |- context [match ?x with _ => _ end] => destruct x end; eauto.
+  - rewrite Forall_forall in S. specialize (S ds Hin L). congruence.
+  - destruct S as (d & Hd & Ld & Bd). exfalso. exact (NP d Hd Ld Bd).
 Qed.
